@@ -17,11 +17,12 @@ def instsOf (r : Rec) : List (Inst Float) :=
   let imms := r.list "imms"; let p2 := r.list "p2"
   let stats := if r.str "stats" == "" then [] else (r.str "stats").splitOn ";"
   let weaks := if r.str "weaks" == "" then [] else (r.str "weaks").splitOn ";"
+  let dress := if r.str "dress" == "" then [] else (r.str "dress").splitOn ";"
   (List.range uids.length).map fun k =>
     { uid := (uids.getD k 0).toNat, name := (names.getD k 0).toNat, source := srcs.getD k 0, dur := durs.getD k 0,
       count := counts.getD k 0, maxCount := maxs.getD k 0, countAdd := cadds.getD k 0, tickImm := imms.getD k "0" == "1",
       canTickP2 := p2.getD k "0" == "1", renew := (renew.getD k 0).toNat, stats := ModAdapter.parseStats (stats.getD k "-"),
-      weak := ModAdapter.parseWeak (weaks.getD k "-") }
+      weak := ModAdapter.parseWeak (weaks.getD k "-"), dres := ModAdapter.parseStats (dress.getD k "-") }
 
 /-- adopt the implementation's attached lists -/
 def resync (s : St Float) (obs : List Rec) : St Float :=
@@ -68,7 +69,9 @@ def close (x y : Float) : Bool := Wire.closeF x y
 
 def checkC06 (trace : List (Rec × List Rec)) : Option String := Id.run do
   let mut prev : List Rec := []
+  let mut cat : Catalog Float := []
   for (op, obs) in trace do
+    if op.name == "cat" then cat := cat ++ [ModAdapter.cfgOfRec op]
     if obs.any (·.name == "panic") then return some s!"panic during {op.name}"
     let lists := obs.filter (·.name == "list")
     -- (a) stats = base ⊕ Σ attached
@@ -82,6 +85,12 @@ def checkC06 (trace : List (Rec × List Rec)) : Option String := Id.run do
       if !close (r.flt "cc") (propTotal base l 17) then return some s!"unit {t}: crit chance {r.flt "cc"} is not base ⊕ Σ attached"
       let wantWeak : List Int := ((List.range 8).filter fun d => d ≥ 1 && weakTo (ModAdapter.baseWeak t) l d).map Int.ofNat
       if r.ints "weak" != wantWeak then return some s!"unit {t}: weaknesses {r.ints "weak"} are not the union {wantWeak} of the unit's own and its attached instances'"
+      let wantCounts : List Int := [0, 1, 2].map fun k => Int.ofNat (statusCount cat l k)
+      if r.ints "scounts" != wantCounts then return some s!"unit {t}: status counts {r.ints "scounts"} are not the numbers {wantCounts} of attached instances per status type"
+      let wantFlags : List Int := ([1, 100, 101, 103].filter fun f => hasFlag cat l f).map Int.ofNat
+      if r.ints "flags" != wantFlags then return some s!"unit {t}: behaviour flags {r.ints "flags"} are not those {wantFlags} of the attached instances' shapes"
+      for (f, x) in ([100, 101, 103] : List Nat).zip (r.flts "dres") do
+        if !close x (debuffRes (dresTotal (ModAdapter.baseDres t) l) [f]) then return some s!"unit {t}: resistance to flag {f} is {x}, not max(0, own + Σ attached) = {debuffRes (dresTotal (ModAdapter.baseDres t) l) [f]}"
       let out := propTotal base l 5 * (1 + atkpct) + (propTotal base l 7 + propTotal base l 8)
       if !close (r.flt "atk") (if out < 0 then 0 else out) then return some s!"unit {t}: ATK is not base×(1+percent)+flat"
       if !close (r.flt "spd") (ModAdapter.spdOf base l) then return some s!"unit {t}: SPD {r.flt "spd"} is not base×(1+percent)+flat+converted = {ModAdapter.spdOf base l}"
